@@ -136,6 +136,22 @@ def main(tier):
         return rep.finish()
     if mc.violated or mc.deadlock:
         rep.drift.append("Migration.tla with CheckTmpTable/AtomicBackup violates %s" % (mc.violated or "deadlock freedom"))
+    # layer 1b (thorough): Apalache discharges an INDUCTIVE invariant implying NoVersionLost - any number of kills / restarts
+    if tier == "thorough":
+        import subprocess
+        import shutil as _sh
+        outs = []
+        with C.Scratch("apa") as ad:
+            for init, inv, length in (("Init", "IndInv", 0), ("IndInit", "IndInv", 1), ("IndInit", "NoVersionLost", 0)):
+                try:
+                    pr = subprocess.run(["apalache-mc", "check", "--init=%s" % init, "--inv=%s" % inv, "--length=%d" % length,
+                                         "--out-dir=%s" % ad, "MC_Migration.tla"], cwd=C.SPECS, capture_output=True, text=True, timeout=900)
+                    outs.append("NoError" in pr.stdout and "EXITCODE: OK" in pr.stdout)
+                except (OSError, subprocess.TimeoutExpired):
+                    outs.append(None)
+        rep.cov["apalache_inductive_invariant"] = {"base": outs[0], "step": outs[1], "implies_NoVersionLost": outs[2]}
+        if any(o is False for o in outs):
+            rep.drift.append("Apalache: the inductive invariant of MC_Migration.tla no longer holds: %s" % outs)
     # layer 2: the real migration killed before every effectful call
     rowsets = [[("//:a", 100, "c0ffee")], [("//:a", 100, "c0ffee"), ("//:a", 150, "c0ffee"), ("//pk:b", 101, "deadbeef")]]
     if tier == "thorough":
